@@ -385,6 +385,66 @@ def body_spelling(ctx: H.BaseCtx):
                 ctx.fail("spelling", "%s raises %s: %s while numpoly.%s returns" % (label, type(e).__name__, str(e)[:60], key))
                 continue
             _same(ctx, r1, r2, label)
+    # output targets: out= given to the numpy spelling and to the numpoly spelling, and the in-place operator, leave the same
+    # result in the target and return the same thing (what numpoly's own function refuses is not a spelling question)
+    iops = {"add": operator.iadd, "sub": operator.isub, "mul": operator.imul}
+    for key in case["binops"]:
+        op_, np_, npo_ = table[key]
+        if key in ("maximum", "minimum"):
+            continue
+        try:
+            r1 = npo_(a, b)
+            if isinstance(r1, numpoly.ndpoly):
+                mk = lambda: numpoly.align_polynomials(r1, a, b)[0].copy()  # room for every term of the operands and of the result
+            elif isinstance(r1, numpy.ndarray):
+                mk = lambda: numpy.zeros(r1.shape, dtype=bool)
+            else:
+                continue
+            o1 = mk()
+            d = npo_(a, b, out=o1)
+        except Exception:
+            continue
+        o2 = mk()
+        try:
+            n = np_(a, b, out=o2)
+        except Exception as e:
+            ctx.fail("spelling", "numpy.%s(.., out=) raises %s: %s while numpoly.%s(.., out=) returns" % (np_.__name__, type(e).__name__, str(e)[:60], np_.__name__))
+            continue
+        _same(ctx, d, n, "numpy.%s with out=" % np_.__name__)
+        _same(ctx, o1, o2, "numpy.%s with out=: the target afterwards" % np_.__name__)
+        if (d is o1) != (n is o2):
+            ctx.fail("spelling", "numpy.%s with out=: one spelling returns the target, the other does not" % np_.__name__)
+        if key in iops and isinstance(r1, numpoly.ndpoly) and tuple(r1.shape) == tuple(getattr(a, "shape", ())):
+            # a op= b  ==  op(a, b, out=a) on a left operand that has room for the result's terms
+            try:
+                x1 = numpoly.align_polynomials(a, r1, b)[0].copy()
+                x2 = x1.copy()
+                d = npo_(x1, b, out=x1)
+            except Exception:
+                continue
+            try:
+                x3 = iops[key](x2, b)
+            except Exception as e:
+                ctx.fail("spelling", "in-place operator %s raises %s: %s while numpoly.%s(a, b, out=a) returns" % (key, type(e).__name__, str(e)[:60], np_.__name__))
+                continue
+            _same(ctx, d, x3, "in-place operator %s" % key)
+            _same(ctx, x1, x2, "in-place operator %s: the left operand afterwards" % key)
+    for key in case.get("unops", []):
+        np_, npo_ = getattr(numpy, key), getattr(numpoly, key)
+        try:
+            r1 = npo_(a)
+            o1 = numpoly.align_polynomials(r1, a)[0].copy()
+            o2 = o1.copy()
+            d = npo_(a, out=o1)
+        except Exception:
+            continue
+        try:
+            n = np_(a, out=o2)
+        except Exception as e:
+            ctx.fail("spelling", "numpy.%s(.., out=) raises %s: %s while numpoly.%s(.., out=) returns" % (key, type(e).__name__, str(e)[:60], key))
+            continue
+        _same(ctx, d, n, "numpy.%s with out=" % key)
+        _same(ctx, o1, o2, "numpy.%s with out=: the target afterwards" % key)
     # the same object on both sides (identity must not short-cut anything)
     for key in ("eq", "ne", "le", "add", "sub", "mul"):
         op_, np_, npo_ = table[key]
@@ -480,6 +540,19 @@ def gen_cases(tier: str, seed: int) -> List[Dict]:
             n += 1
             cases.append({"id": "C08-%03d-literal" % n, "op": "literal", "src": "literal", "operands": [S.make_poly_spec("a", names, exps, shape, rng, 2, zero_prob=0.0, literal_prob=0.3, mode="raw")],
                           "ints": [1, 2] if quick else [1, 2, -3], "special_values": shape == () and len(names) == 1, "limits": lim})
+    # constants that store all-zero non-constant terms ahead of the constant term (what take / slicing / alignment leave behind)
+    for names, exps in [(("q0",), [[1], [0]]), (("q0", "q1"), [[0, 1], [1, 0], [0, 0]]), (("q2", "q10"), [[1, 1], [0, 0]])]:
+        for shape in [(2,), ()]:
+            sp = S.make_poly_spec("a", names, exps, shape, rng, 2, zero_prob=0.0, literal_prob=0.3, mode="raw")
+            sp.pop("pre", None)
+            order = [sp["exps"].index(e) for e in exps]
+            sp["exps"] = [list(e) for e in exps]
+            sp["slots"] = [sp["slots"][i] for i in order]
+            for i, e in enumerate(exps):
+                if any(e):
+                    sp["slots"][i] = [0] * len(sp["slots"][i])
+            n += 1
+            cases.append({"id": "C08-%03d-literal-untidy-constant" % n, "op": "literal", "src": "literal", "operands": [sp], "ints": [1, 2], "special_values": False, "limits": lim})
     return cases
 
 
